@@ -495,6 +495,7 @@ def replay_path(uni: Universe, scn, steps, read_mode, tally, probes=None, probe_
         o, exc, _ = drv.apply(ev)
         if o != "ok":
             return [Mismatch("C10", "scenario_prefix", f"scenario prefix event {ev} raised {exc}")], -1
+    soft_acc, soft_at = [], -1
     for i, (ev, out, acts, st, view) in enumerate(steps):
         before = drv.snapshot()
         try:
@@ -576,14 +577,23 @@ def replay_path(uni: Universe, scn, steps, read_mode, tally, probes=None, probe_
                 probes.extend(liq_probes(drv, i))
             if probe_helpers and not mm and (i == len(steps) - 1 or i % 3 == 0):
                 probes.extend(helper_probes(drv, i))
-        if any(m.clause != "pair(info)" for m in mm):
-            return [m for m in mm if m.clause != "pair(info)"], i
+        real = [m for m in mm if m.clause != "pair(info)"]
+        if real:
+            # a deviation in REPORTED values only (the positions, the wallet and the outcome conform) does not end the path: what the
+            # stale figure does to later operations is a matter of the clauses that own those operations (first deviation kept)
+            soft = all(m.prop in ("C13", "C01") or (m.prop == "C03" and m.clause.startswith("value_")) or
+                       (m.prop == "C11" and m.clause in ("health_factor", "max_ltv", "liq_threshold", "ltv")) for m in real)
+            if soft and o == out and not compare_state(drv, st, lambda c: None):
+                if not soft_acc:
+                    soft_acc, soft_at = real, i
+                continue
+            return soft_acc + real, i
         if mm:
             # a different but possibly legal liquidation (pair, count or amount): decided by the relational probes
             # (Trace_AaveProbe: LiqStepOK / LiqRunOK); the rest of the path would follow another state
             tally("info/liquidation_differs_from_policy")
-            return [], i
-    return [], len(steps)
+            return soft_acc, i
+    return soft_acc, (len(steps) - 1 if soft_acc else len(steps))
 
 
 def fmt_ev(ev):
